@@ -71,6 +71,10 @@ def library():
     L["F0_LD"] = Block("F0_LD", cut("ld_frag", 1), nslices=0)
     L["FS0_LD"] = Block("FS0_LD", cut("ld_frag", 2), nslices=1, xy=(0, 0))
     L["FS1_LD"] = Block("FS1_LD", cut("ld_frag", 3), nslices=1, xy=(1, 0))
+    # one sequence whose pictures change wavelet, depth, slice counts and quantisation matrix (custom, default, custom)
+    L["SH_PC"] = Block("SH_PC", cut("hq_params_change", 0), profile="hq", major_version=2, level=0, fields=False, slices=1)
+    for i in (1, 2, 3):
+        L["PC%d" % i] = Block("PC%d" % i, cut("hq_params_change", i))
     L["PADU"] = Block("PADU", cut("hq_padaux", 1))
     L["PAD3"] = Block("PAD3", cut("hq_padaux_payload", 1))
     L["AUXU"] = Block("AUXU", cut("hq_padaux", 2))
